@@ -1115,6 +1115,51 @@ func addDecoys(r *RNG, obj *AV, paths [][]string, val func() *AV, protect ...[]s
 		o.Set(k, v)
 		o.Nil = false
 	}
+	// names no path may meet at a given depth: a key put at depth d is inert iff no path has that name as its d-th segment
+	segAt := map[int]map[string]bool{}
+	for _, ps := range [][][]string{paths, protect} {
+		for _, p := range ps {
+			for d, s := range p {
+				if segAt[d] == nil {
+					segAt[d] = map[string]bool{}
+				}
+				segAt[d][s] = true
+			}
+		}
+	}
+	putAt := func(o *AV, depth int, k string, v *AV) {
+		if segAt[depth][k] || o.Get(k) != nil || v == nil {
+			return
+		}
+		o.Set(k, v)
+		o.Nil = false
+	}
+	for pi, p := range paths {
+		if len(p) < 2 || !r.Chance(1, 2) {
+			continue
+		}
+		// where the walk of p ends: the deepest existing object and the first step that is missing or null
+		cur, lvl := obj, 0
+		for lvl < len(p)-1 {
+			nx := cur.Get(p[lvl])
+			if nx == nil || nx.K != AVObj {
+				break
+			}
+			cur, lvl = nx, lvl+1
+		}
+		if nx := cur.Get(p[lvl]); lvl < len(p)-1 && (nx == nil || nx.K == AVNull) {
+			// the walk breaks off before the last step. What a walk that loses its place might look at next:
+			// the REST of the path from the top of the object ...
+			if r.Chance(1, 2) {
+				putAt(obj, 0, p[lvl+1], val())
+			}
+			// ... or, for the next comparison, ITS attribute inside the parent that survived
+			if lvl > 0 && len(paths) > 1 {
+				q := paths[(pi+1+r.Intn(len(paths)-1))%len(paths)]
+				putAt(cur, lvl, q[0], val())
+			}
+		}
+	}
 	for _, p := range paths {
 		switch r.Intn(3) {
 		case 0:
